@@ -111,14 +111,17 @@ def parseI32 (neg : Bool) (ds : Bytes) : Option Int :=
     if neg then (if n ≤ 2147483648 then some (-(n : Int)) else none)
     else (if n ≤ 2147483647 then some (n : Int) else none)
 
+/-- the optional sign of `consume_i32`: (is negative, rest) -/
+def consumeSign : Bytes → Bool × Bytes
+  | 45 :: r => (true, r)
+  | 43 :: r => (false, r)
+  | s => (false, s)
+
 /-- src: text_parser.rs::TextParser::consume_i32 — the position advances over sign and digits even
     when the result is `None`. -/
 def consumeI32 (s : Bytes) : Option Int × Bytes :=
-  let (neg, r) := match s with
-    | 45 :: r => (true, r)
-    | 43 :: r => (false, r)
-    | _ => (false, s)
-  (parseI32 neg (r.takeWhile isDigit), r.dropWhile isDigit)
+  let p := consumeSign s
+  (parseI32 p.1 (p.2.takeWhile isDigit), p.2.dropWhile isDigit)
 
 /-- src: text_parser.rs::TextParser::consume_bool — skips spaces, consumes letters, even on failure. -/
 def consumeBool (s : Bytes) : Option Bool × Bytes :=
@@ -134,21 +137,25 @@ def consumeBool (s : Bytes) : Option Bool × Bytes :=
 /-- `i32 as u32` -/
 def toU32 (v : Int) : Nat := (v % 4294967296).toNat
 
+/-- the part of the index after the start number: `:end` / `;end`, or nothing (then `start + 1`, or MAX
+    when there was no start number or it was u32::MAX) -/
+def parseIndexEnd (startOpt : Option Int) (s : Bytes) : Nat × Bytes :=
+  match s with
+  | 58 :: r | 59 :: r =>
+      let e := consumeI32 r
+      (toU32 (e.1.getD (-1)), e.2)
+  | _ => (if startOpt.isSome ∧ toU32 (startOpt.getD 0) ≠ U32MAX then toU32 (startOpt.getD 0) + 1 else U32MAX, s)
+
 /-- the `[start:end]` part of `from_str` -/
 def parseIndices (s : Bytes) : Option (Nat × Nat × Bytes) :=
   match consumeByte 91 s with
   | none => some (0, U32MAX, s)
   | some s =>
-    let (startOpt, s) := consumeI32 s
-    let start := toU32 (startOpt.getD 0)
-    let (stop, s) := match s with
-      | 58 :: r | 59 :: r =>
-          let (e, r) := consumeI32 r
-          (toU32 (e.getD (-1)), r)
-      | _ => (if startOpt.isSome ∧ start ≠ U32MAX then start + 1 else U32MAX, s)
-    match consumeByte 93 s with
+    let a := consumeI32 s
+    let e := parseIndexEnd a.1 a.2
+    match consumeByte 93 e.2 with
     | none => none
-    | some s => some (start, stop, s)
+    | some s => some (toU32 (a.1.getD 0), e.1, s)
 
 /-- the `=value` part of `from_str`, up to and including the end-of-input test -/
 def parseValue (dflt : Nat) (s : Bytes) : Option Nat :=
@@ -168,22 +175,34 @@ def parseValue (dflt : Nat) (s : Bytes) : Option Nat :=
       | none => dflt
     if (skipSpaces s).isEmpty then some value else none
 
+/-- the `+`/`-` prefix of `from_str`: (default value, rest) -/
+def parsePrefix : Bytes → Nat × Bytes
+  | 45 :: r => (0, r)
+  | 43 :: r => (1, r)
+  | s => (1, s)
+
+/-- "Force closing quote." -/
+def closeQuote (q : Option Nat) (s : Bytes) : Option Bytes :=
+  match q with
+  | some q => consumeByte q s
+  | none => some s
+
+/-- spaces, optional quote, tag, closing quote, spaces -/
+def parseTag (s : Bytes) : Option (Nat × Bytes) :=
+  let q := consumeQuote (skipSpaces s)
+  match consumeTag q.2 with
+  | none => none
+  | some ts =>
+    match closeQuote q.1 ts.2 with
+    | none => none
+    | some s => some (ts.1, skipSpaces s)
+
 /-- the prefix, tag and closing quote of `from_str` -/
 def parseHead (s : Bytes) : Option (Nat × Nat × Bytes) :=
-  let (value, s) := match s with
-    | 45 :: r => (0, r)
-    | 43 :: r => (1, r)
-    | _ => (1, s)
-  let s := skipSpaces s
-  let (quote, s) := consumeQuote s
-  match consumeTag s with
+  let p := parsePrefix s
+  match parseTag p.2 with
   | none => none
-  | some (tag, s) =>
-    match (match quote with
-           | some q => consumeByte q s
-           | none => some s) with
-    | none => none
-    | some s => some (value, tag, skipSpaces s)
+  | some t => some (p.1, t.1, t.2)
 
 /-- src: common.rs::<Feature as FromStr>::from_str (inner `parse`) -/
 def parse (s : Bytes) : Option Feature :=
